@@ -468,6 +468,15 @@ let () =
           let f = fields ops.(!k) in
           let gn = gname (zguard !m op) in
           let gn = if gn = "other" || gn = "ok" then "L" ^ String.concat "," (List.map (layout_tag !m) (operand_ids ops.(!k))) else gn in
+          (* "order-mix" covers every column-major operand in the default engine's guards; the float
+             engines' known difference (F62) is about MIXED orders only *)
+          let dests = List.concat (List.map (fun tok ->
+              match String.split_on_char '.' tok with
+              | ("reuse" | "incr") :: r :: _ -> (try [int_of_string r] with _ -> [])
+              | "both" :: r :: i :: _ -> (try [int_of_string r; int_of_string i] with _ -> [])
+              | _ -> []) (Array.to_list (fields ops.(!k)))) in
+          let tags = List.map (layout_tag !m) (operand_ids ops.(!k) @ dests) in
+          let gn = if gn = "order-mix" && tags <> [] && List.for_all (fun t -> String.contains t 'c') tags then "all-col-major" else gn in
           Printf.sprintf "c20.%s:%s:%s" a.(0)
             (f.(0) ^ (if Array.length f > 1 && (f.(0) = "bin" || f.(0) = "bins" || f.(0) = "lin") then "." ^ f.(1) else "")) gn
         end in
